@@ -61,7 +61,7 @@ def numeric_attrs(ds):
     keys = None
     for p in ds:
         ks = {k for k, v in p.items() if isinstance(v, (int, float)) and not isinstance(v, bool)
-              and v == v}
+              and v == v and str(k).isidentifier()}     # `eval('pt.' + criterion)` needs an identifier
         keys = ks if keys is None else keys & ks
     return sorted(keys)
 
